@@ -23,7 +23,6 @@ Definition precond (Ca Cb : Circuit) (S E : list string) : bool :=
   let sS : gset string := list_to_set S in let sE : gset string := list_to_set E in
   bool_decide (c_bbs Ca = ∅) && bool_decide (c_bbs Cb = ∅) &&
   bool_decide (NoDup S) && bool_decide (NoDup E) &&
-  negb (bool_decide (E = [])) &&      (* nothing to compare: `sat` is an undriven buffer; the property speaks about non-empty comparisons *)
   bool_decide (sS ⊆ startpoints ga ∩ startpoints gb) && bool_decide (sE ⊆ dom ga ∩ dom gb) &&
   (* the five groups of names of the miter are pairwise distinct *)
   bool_decide (size (sS ∪ smap (pre "c0") (dom ga) ∪ smap (pre "c1") (dom gb) ∪ {["sat"]} ∪ smap (pre "dif") sE)
